@@ -117,7 +117,9 @@ def observe(r):
         tree = p.stdout.strip() if p.returncode == 0 else None
     dirty = r.git(["status", "--porcelain"]).stdout.strip()
     wt_dirty = any(l[1:2] not in (" ", "") for l in dirty.split("\n") if l)
-    return {"refs": refs, "tree": tree, "unmerged": um, "wt_differs_from_index": wt_dirty}
+    ht = r.git(["rev-parse", "--verify", "-q", "HEAD^{tree}"], check=False)
+    return {"refs": refs, "tree": tree, "unmerged": um, "wt_differs_from_index": wt_dirty,
+            "head_tree": ht.stdout.strip() if ht.returncode == 0 else None}
 
 
 class Ids:
